@@ -461,6 +461,9 @@ def get_next_assignment(
             if mode == "min" and (
                 candidate_cost >= upper_bound or ass_cost + elt_cost >= upper_bound
             ):
+                # This candidate is rejected, even if it looked possible
+                # for the previous elements of the path.
+                found = None
                 break  # Try next value in domain.
             else:
                 found = candidate, candidate_cost  # Check for next elt in path.
